@@ -59,7 +59,7 @@ pub fn run_script(s: &Script, rep: &mut Report, seen: &mut BTreeSet<Hash>, c07: 
     };
     let ctx = json!({"rich_treasury": s.rich, "g": s.g, "staking": s.staking, "rounds": s.rounds.iter().map(|r| format!("{:?}", r)).collect::<Vec<_>>()});
     let mut produced = 0u64;
-    let cls = |r: &Round| format!("{}{}", match &r.tx { TxKind::None => "none".to_string(), TxKind::PeerConflict(f) => format!("peerconflict{}", f), TxKind::PeerBlock(k) => format!("peerblock{}", k), TxKind::Pay { fee, route, .. } => format!("fee{}route{}", fee, route) }, if r.gt { "+gt" } else { "" });
+    let cls = |r: &Round| format!("{}{}", match &r.tx { TxKind::None => "none".to_string(), TxKind::PeerConflict(f) => format!("peerconflict{}", f), TxKind::PeerBlock(k) => format!("peerblock{}", k), TxKind::PeerBlockPending(k) => format!("peerblockpending{}", k), TxKind::Pay { fee, route, .. } => format!("fee{}route{}", fee, route) }, if r.gt { "+gt" } else { "" });
     for (ri, r) in s.rounds.iter().enumerate() {
         if let TxKind::PeerConflict(pfee) = r.tx.clone() {
             let ts0 = p.tip_ts + 2 * hb;
@@ -94,7 +94,20 @@ pub fn run_script(s: &Script, rep: &mut Report, seen: &mut BTreeSet<Hash>, c07: 
                 }
             }
         }
-        if let TxKind::PeerBlock(who) = r.tx.clone() {
+        if let TxKind::PeerBlockPending(_) = r.tx.clone() {
+            // K2's oldest output that the pool still admits (one block before it leaves the window)
+            let g = s.g;
+            let h = p.tip_id + 1;
+            let k2 = crate::seams::key(2);
+            if let Some(old) = p.ledger.unspent_of(&k2.public).into_iter().filter(|sl| sl.block_id + g >= h && sl.amount > 100 && sl.slip_type != saito_core::core::consensus::slip::SlipType::Bound).min_by_key(|sl| (sl.block_id, sl.tx_ordinal, sl.slip_index)) {
+                let t = make_tx(&[old.clone()], &[(crate::seams::key(1).public, old.amount)], &k2, p.tip_ts + 1, b"pending-old");
+                match p.submit(t) {
+                    Outcome::Done(true) => rep.outcome("pending-spend-of-the-oldest-output-pooled"),
+                    _ => rep.outcome("pending-spend-of-the-oldest-output-refused"),
+                }
+            }
+        }
+        if let TxKind::PeerBlock(who) | TxKind::PeerBlockPending(who) = r.tx.clone() {
             // another producer's round: its node holds the same chain, pools one payment and
             // bundles (and stakes) with its own wallet; the node under test and the twin adopt it
             let ts = p.tip_ts + r.dt_half_hb * hb / 2;
@@ -106,7 +119,8 @@ pub fn run_script(s: &Script, rep: &mut Report, seen: &mut BTreeSet<Hash>, c07: 
             }
             // (the payment is not signed by the producing key: its wallet only knows the
             // transactions it made itself)
-            let payer = if who.public == crate::seams::key(1).public { 2 } else { 1 };
+            let payer = if who.public == crate::seams::key(1).public || matches!(r.tx, TxKind::PeerBlockPending(_)) { if who.public == crate::seams::key(1).public { 2 } else { 1 } } else { 1 };
+            let payer = if payer == 2 && matches!(r.tx, TxKind::PeerBlockPending(_)) { 1 } else { payer };
             if let Some(t) = p.make_tx(&TxKind::Pay { payer, fee: 2_000, route: 0 }, ts) {
                 let bc = pn.blockchain.clone();
                 let mp = pn.mempool.clone();
@@ -285,6 +299,22 @@ pub fn scripts(tier: &Tier) -> Vec<Script> {
                 let mut r = base.clone();
                 for j in 0..k {
                     r[pos + j] = Round { tx: TxKind::PeerBlock(if j % 2 == 0 { 2 } else { 1 }), gt: r[pos + j].gt, dt_half_hb: 4 };
+                }
+                r.truncate((pos + k + 3).min(n));
+                v.push(Script { rich: false, g, staking, rounds: r });
+            }
+        }
+        // a payment spending the oldest admissible output waits in the node's pool while another
+        // producer makes the next block (or two); then the node produces
+        for pos in 1..n.saturating_sub(2) {
+            for k in 1..=2usize {
+                if pos + k + 1 > n {
+                    continue;
+                }
+                let mut r = base.clone();
+                r[pos] = Round { tx: TxKind::PeerBlockPending(1), gt: r[pos].gt, dt_half_hb: 4 };
+                for j in 1..k {
+                    r[pos + j] = Round { tx: TxKind::PeerBlock(1), gt: r[pos + j].gt, dt_half_hb: 4 };
                 }
                 r.truncate((pos + k + 3).min(n));
                 v.push(Script { rich: false, g, staking, rounds: r });
